@@ -27,7 +27,7 @@ FLOORS = {"quick": {"py.direct": 100000, "rs.direct": 100000, "parse": 100000, "
           "thorough": {"py.direct": 10**6, "rs.direct": 10**6, "parse": 10**6, "reject": 100000, "too_large": 30000, "interval": 200000,
                        "backend_eq": 10**6}}
 REQUIRED_HOOKS = ["pendulum.parse"]
-TECHNIQUE = "exact rational (fractions.Fraction) oracle at three hooks (both parse_iso8601 implementations, pendulum.parse), endpoint oracle for intervals, overflow-checked extension build as integer sanitizer"
+TECHNIQUE = "exact rational (fractions.Fraction) oracle at three hooks (both parse_iso8601 implementations, pendulum.parse), endpoint oracle for intervals, overflow-checked extension build as integer sanitizer; same instants re-written with other offsets in one process (history workload)"
 LEVEL_TEXT = ("every generated duration string is parsed by the compiled parser, the pure-Python parser and pendulum.parse and compared "
               "with the exact rational value (rounded to the microsecond); invalid orders/fractions must be rejected, unrepresentable "
               "numbers must be rejected rather than wrapped (also watched by the overflow-checked build); the three interval forms are "
